@@ -26,6 +26,9 @@ pub fn run(c: &NegCase) -> NegOut {
     for t in &c.cfg.transfer_syntaxes {
         o = o.with_transfer_syntax(t.clone());
     }
+    if let Some(m) = c.cfg.max_pdu_length {
+        o = o.max_pdu_length(m);
+    }
     let msg = to_ul(&c.req);
     let r = if c.cfg.accept_called_only { o.accept_called_ae_title().verif_process_rq(msg) } else { o.verif_process_rq(msg) };
     match r {
